@@ -479,3 +479,64 @@ def valve_internal_nodes_bounded(ctx):
                 "valves} in every order; int_nodes, group numbers and pi-row positions against the first-occurrence specification"
                 % inp["max_rows"], res["cases"], witness=res["witness"],
                 replay={"handler": "bounded", "input": inp} if not res["ok"] else None)
+
+
+# ---------------------------------------------------------------------------------------------
+# create_lookups: the running start positions are threaded through the components in order
+
+@unit("C06", "lookups/threading", functions=[PS + ":create_lookups"], engine="E1")
+def lookup_threading(ctx):
+    """every component receives, as its start position, the end position returned by the component before it (branch and
+    node positions threaded separately, both starting at 0), all components fill the SAME lookup dictionaries, and exactly
+    these dictionaries and the final end positions are stored in net['_lookups'] -- so the per-component contracts
+    (lookup[label of row r] = start + r) compose to lookups without overlap or gap, for any component list"""
+    ctx.assume("A6")
+    calls = []
+
+    class _Meth:
+        def __init__(self, comp, kind):
+            self.comp, self.kind = comp, kind
+
+        def call(self, ev, args, kwargs, lineno):
+            end = z3.Int("%s_end_%s" % (self.kind, self.comp))
+            nr = z3.Int("%s_nr_%s" % (self.kind, self.comp))
+            calls.append((self.comp, self.kind, list(args), end, nr))
+            return (end, nr)
+    comps = []
+    for nm in ("c0", "c1", "c2"):
+        o = E.Obj(nm, {})
+        o.attrs["create_branch_lookups"] = _Meth(nm, "branch")
+        o.attrs["create_node_lookups"] = _Meth(nm, "node")
+        comps.append(o)
+    net = K.NetObj({"component_list": comps})
+    paths = T.run_paths(ctx, PS + ":create_lookups", lambda: ([net], {}))
+    ok = len(paths) == 1 and paths[0].exc is None and len(calls) == 6
+    ctx.decided("single-path-two-calls-per-component", "cover", ok, witness=str(([str(p.exc) for p in paths], len(calls))))
+    if not ok:
+        return
+    lk = paths[0].args[0][0].items.get("_lookups")
+    ctx.decided("lookups-stored", "ensures", isinstance(lk, dict), witness=repr(type(lk)))
+    for kind, keys in (("branch", ("branch_from_to", "branch_table", "branch_index", "branch_length", "internal_branches")),
+                       ("node", ("node_from_to", "node_table", "node_index", "node_length", "internal_nodes"))):
+        cs = [c for c in calls if c[1] == kind]
+        ctx.decided("%s/called-in-component-order" % kind, "ensures", [c[0] for c in cs] == ["c0", "c1", "c2"], witness=str([c[0] for c in cs]))
+        prev_end, prev_nr = 0, 0
+        for comp, _, a, end, nr in cs:
+            # signature: (net, ft_lookups, table_lookups, idx_lookups, current_start, current_table, internals)
+            start, tab = a[4], a[5]
+            same_start = (start == prev_end) if not is_z3(prev_end) else (is_z3(start) and start.eq(prev_end))
+            same_tab = (tab == prev_nr) if not is_z3(prev_nr) else (is_z3(tab) and tab.eq(prev_nr))
+            ctx.decided("%s/%s/starts-where-the-previous-component-ended" % (kind, comp), "ensures", bool(same_start),
+                        witness="start %r, previous end %r" % (start, prev_end))
+            ctx.decided("%s/%s/table-number-threaded" % (kind, comp), "ensures", bool(same_tab), witness="table nr %r, previous %r" % (tab, prev_nr))
+            prev_end, prev_nr = end, nr
+        first = cs[0][2]
+        ctx.decided("%s/all-components-fill-the-same-dictionaries" % kind, "ensures",
+                    all(c[2][1] is first[1] and c[2][2] is first[2] and c[2][3] is first[3] and c[2][6] is first[6] for c in cs),
+                    witness="different dictionary objects handed to the components")
+        if isinstance(lk, dict):
+            ctx.decided("%s/the-filled-dictionaries-are-the-stored-lookups" % kind, "ensures",
+                        lk.get(keys[0]) is first[1] and lk.get(keys[1]) is first[2] and lk.get(keys[2]) is first[3] and lk.get(keys[4]) is first[6],
+                        witness=str(sorted(lk)))
+            ln = lk.get(keys[3])
+            ctx.decided("%s/stored-length-is-the-last-end" % kind, "ensures", is_z3(ln) and ln.eq(cs[-1][3]), witness=repr(ln))
